@@ -80,6 +80,8 @@ pub struct Script {
     /// Set when a read found the script empty (the driver stops or feeds more).
     pub exhausted: bool,
     pub reads: usize,
+    /// Number of read calls that returned data (> 0 bytes).
+    pub data_reads: usize,
     pub writes: Vec<Vec<u8>>,
     pub wacts: VecDeque<WAct>,
     pub wpending: usize,
@@ -143,6 +145,7 @@ impl ReadHalf for SRead {
                     if n < d.len() {
                         s.evs.push_front(Ev::Data(d[n..].to_vec()));
                     }
+                    s.data_reads += 1;
                     Poll::Ready(Ok(n))
                 }
             }
